@@ -6,7 +6,9 @@ import (
 	"encoding/json"
 	"fmt"
 	"github.com/ipld/go-ipld-prime/codec/dagcbor"
+	"math"
 	"math/rand"
+	"strconv"
 
 	"github.com/ipld/go-ipld-prime"
 	"github.com/ipld/go-ipld-prime/codec/dagjson"
@@ -356,8 +358,132 @@ func listNode(elems []ipld.Node) ipld.Node {
 	return n
 }
 
+// floatNeighbours: == on floats is equality of the two floats, and for any two numbers exactly one of <, ==, > holds:
+// every float next to its immediate neighbours (and the classic 0.1 + 0.2 against 0.3).
+func floatNeighbours(rep *Report) {
+	xs := []float64{0.3, 0.1 + 0.2, 1, 1.5, 1e15, 4503599627370496.5, 1e-300, 5e-324, 1e308, -0.3, -1e15, 123456.789}
+	for _, x := range xs {
+		for _, y := range []float64{math.Nextafter(x, math.Inf(1)), math.Nextafter(x, math.Inf(-1)), x} {
+			if math.IsInf(y, 0) {
+				continue
+			}
+			data := mapNode(map[string]ipld.Node{"a": basicnode.NewFloat(y), "l": listOf(basicnode.NewFloat(y)), "m": mapNode(map[string]ipld.Node{"k": basicnode.NewFloat(y)})})
+			lit := basicnode.NewFloat(x)
+			eval := func(c policy.Constructor) (bool, bool) {
+				p, err := policy.Construct(c)
+				if err != nil {
+					return false, false
+				}
+				ok, _ := p.Match(data)
+				return ok, true
+			}
+			rep.Evaluations++
+			cs := map[string]any{"literal": strconv.FormatFloat(x, 'g', -1, 64), "datum": strconv.FormatFloat(y, 'g', -1, 64)}
+			eq, ok1 := eval(policy.Equal(".a", lit))
+			lt, ok2 := eval(policy.LessThan(".a", lit))
+			gt, ok3 := eval(policy.GreaterThan(".a", lit))
+			if !ok1 || !ok2 || !ok3 {
+				continue
+			}
+			if eq != (x == y) {
+				rep.violation(cs, fmt.Sprint(x == y), fmt.Sprint(eq), "== on two floats is not their equality")
+				continue
+			}
+			if n := b2i(eq) + b2i(lt) + b2i(gt); n != 1 {
+				rep.violation(cs, "exactly one of <, ==, >", fmt.Sprintf("== %v, < %v, > %v", eq, lt, gt), "two numbers are in exactly one of the three order relations")
+				continue
+			}
+			if eql, ok := eval(policy.Equal(".l", listOf(lit))); ok && eql != (x == y) {
+				rep.violation(cs, fmt.Sprint(x == y), fmt.Sprint(eql), "== on lists holding two floats is not their equality")
+			}
+			if eqm, ok := eval(policy.Equal(".m", mapNode(map[string]ipld.Node{"k": lit}))); ok && eqm != (x == y) {
+				rep.violation(cs, fmt.Sprint(x == y), fmt.Sprint(eqm), "== on maps holding two floats is not their equality")
+			}
+		}
+	}
+}
+
+func b2i(b bool) int {
+	if b {
+		return 1
+	}
+	return 0
+}
+
+// deepNesting: the meaning of not / and / or / all / any does not depend on how deep a statement sits: k-fold wrappings
+// of a leaf (k up to 100) mean what the leaf means (negated k times for `not`), built with the constructors, read from
+// IPLD and read from DAG-JSON.
+func deepNesting(rep *Report) {
+	one := basicnode.NewInt(1)
+	for _, k := range []int{1, 2, 3, 15, 16, 17, 31, 32, 33, 34, 35, 63, 64, 65, 100} {
+		for _, leafTrue := range []bool{true, false} {
+			leafJS := `["==", ".a", 1]`
+			if !leafTrue {
+				leafJS = `["==", ".a", 2]`
+			}
+			dataJS := `{"a": 1}`
+			type wrap struct {
+				name   string
+				js     func(inner string) string
+				expect func(leaf bool, k int) bool
+			}
+			same := func(leaf bool, k int) bool { return leaf }
+			for _, w := range []wrap{
+				{"not", func(in string) string { return `["not", ` + in + `]` }, func(leaf bool, k int) bool { return leaf == (k%2 == 0) }},
+				{"and", func(in string) string { return `["and", [` + in + `]]` }, same},
+				{"or", func(in string) string { return `["or", [["==", ".a", 7], ` + in + `]]` }, same},
+				{"not-and-not-or", func(in string) string { return `["not", ["and", [["not", ["or", [` + in + `]]]]]]` }, same},
+			} {
+				js := leafJS
+				for i := 0; i < k; i++ {
+					js = w.js(js)
+				}
+				rep.Evaluations++
+				want := w.expect(leafTrue, k)
+				cs := map[string]any{"wrapping": w.name, "depth": k, "leaf_true": leafTrue}
+				p, err := policy.FromDagJson("[" + js + "]")
+				if err != nil {
+					rep.violation(cs, "a policy", err.Error(), "a nested statement cannot be read")
+					continue
+				}
+				d, _ := ipld.Decode([]byte(dataJS), dagjson.Decode)
+				if got, _ := p.Match(d); got != want {
+					rep.violation(cs, fmt.Sprint(want), fmt.Sprint(got), fmt.Sprintf("%d-fold %s around a leaf that is %v", k, w.name, leafTrue))
+					continue
+				}
+				if got, _ := p.PartialMatch(d); got != want {
+					rep.violation(cs, fmt.Sprint(want), fmt.Sprint(got), fmt.Sprintf("partial match: %d-fold %s around a leaf that is %v", k, w.name, leafTrue))
+				}
+			}
+			// quantifiers over k-fold nested one-element lists
+			var c policy.Constructor = policy.Equal(".", one)
+			if !leafTrue {
+				c = policy.Equal(".", basicnode.NewInt(2))
+			}
+			var data ipld.Node = one
+			for i := 0; i < k; i++ {
+				if i%2 == 0 {
+					c = policy.All(".", c)
+				} else {
+					c = policy.Any(".", c)
+				}
+				data = listOf(data)
+			}
+			rep.Evaluations++
+			if p, err := policy.Construct(c); err == nil {
+				if got, _ := p.Match(data); got != leafTrue {
+					rep.violation(map[string]any{"wrapping": "all/any", "depth": k, "leaf_true": leafTrue}, fmt.Sprint(leafTrue), fmt.Sprint(got),
+						fmt.Sprintf("%d alternating quantifiers over %d-fold nested one-element lists", k, k))
+				}
+			}
+		}
+	}
+}
+
 func init() {
 	replays["policy"] = func(cases []json.RawMessage, rep *Report) error {
+		floatNeighbours(rep)
+		deepNesting(rep)
 		var data []ipld.Node
 		var dataJSON [][]any
 		var prev *stmt
